@@ -247,9 +247,19 @@ static int run_rc() {
 		int64_t sec = -1, nsec = -1; i128 v;
 		if (!null) {
 			uint64_t val = *genValue();                      // ns since the epoch, up to 2^62
-			bool big = *gen::map(gen::inRange(0, 6), [](int x) { return x == 0; });
-			if (big) val = *gen::map(gen::arbitrary<uint64_t>(), [](uint64_t x) -> uint64_t { return x >> 1; });   // up to 2^63 ns: beyond the representable future
-			sec = (int64_t)(val / 1000000000ull); nsec = (int64_t)(val % 1000000000ull); v = val;
+			sec = (int64_t)(val / 1000000000ull); nsec = (int64_t)(val % 1000000000ull);
+			int big = *gen::resize(100, gen::inRange(0, 8));
+			if (big == 0) {            // any non-negative time_t, biased to the points where sec*1e9 crosses 2^62, 2^63, 2^64, and to powers of two
+				static const std::vector<int64_t> SEC_ANCHORS = { 4611686018ll, 9223372036ll, 18446744073ll, 36893488147ll, INT64_MAX / 1000000000ll, INT64_MAX };
+				sec = *gen::resize(100, gen::oneOf(
+					gen::map(gen::tuple(gen::elementOf(SEC_ANCHORS), gen::inRange<int>(-3, 4)), [](std::tuple<int64_t, int> t) -> int64_t {
+						i128 s = (i128)std::get<0>(t) + std::get<1>(t); if (s > INT64_MAX) s = INT64_MAX; return (int64_t)s; }),
+					gen::map(gen::tuple(gen::inRange<int>(30, 63), gen::inRange<int>(-2, 3)), [](std::tuple<int, int> t) -> int64_t { return (int64_t)(1ull << std::get<0>(t)) + std::get<1>(t); }),
+					gen::map(gen::arbitrary<uint64_t>(), [](uint64_t x) -> int64_t { return (int64_t)(x >> 1); })));
+				nsec = *gen::resize(100, gen::oneOf(gen::elementOf(std::vector<int64_t>{ 0, 1, 387904ll, 427387904ll, 854775807ll, 854775808ll, 999999999ll }),
+					gen::map(gen::inRange<int>(0, 1000000000), [](int x) -> int64_t { return x; })));
+			}
+			v = (i128)sec * 1000000000 + nsec;
 		} else v = now_ns(WALL);
 		int64_t delta = *genDeltaFor(v);
 		RC_ASSERT(check_walltime(sec, nsec, delta, (uint64_t)delta % 4 == 0));
@@ -287,6 +297,9 @@ static uint64_t run_grid() {
 		for (i128 t : SUM_TARGETS) for (int j = -3; j <= 3; j++) { i128 d = t - (i128)val + j; if (fits64(d)) ds.push_back((int64_t)d); }
 		for (int64_t d : ds) { check_walltime((int64_t)(val / 1000000000ull), (int64_t)(val % 1000000000ull), d, true); n++; }
 	}
+	for (int64_t sec : std::vector<int64_t>{ 9223372035ll, 9223372036ll, 9223372037ll, 18446744073ll, 18446744074ll, 36893488147ll, INT64_MAX / 1000000000ll, INT64_MAX - 1, INT64_MAX })
+		for (int64_t ns : std::vector<int64_t>{ 0, 854775807ll, 854775808ll, 999999999ll })
+			for (int64_t d : std::vector<int64_t>{ 0, 1, -1, INT64_MIN, INT64_MAX, (int64_t)1 << 62, -((int64_t)1 << 62) }) { check_walltime(sec, ns, d, true); n++; }
 	for (int64_t d : { (int64_t)0, (int64_t)1, (int64_t)-1, INT64_MIN, INT64_MAX, -(int64_t)now_ns(WALL), -(int64_t)now_ns(WALL) + 1 }) { check_walltime(-1, -1, d, true); n++; }
 	return n;
 }
